@@ -19,6 +19,13 @@ func enabledHistory(s *cases.Set, c bandcfg.Config, ops []bandcfg.Op, kind strin
 		return
 	}
 	_, errs := bandcfg.Apply(b, ops)
+	// what a getter returned belongs to the caller: overwrite every returned slice / pointer and ask
+	// again; the observations below are taken afterwards
+	for _, ch := range bandcfg.ScribbleCheck(b) {
+		s.Fail(cases.GoFail{Key: fmt.Sprintf("returned-value-alias:%s:ops=%s:%s", c.Key(), bandcfg.OpsKey(ops), strings.SplitN(ch, ":", 2)[0]),
+			What:   "the band keeps (and hands out again) a slice / pointer it returned to the caller: " + ch,
+			Replay: map[string]interface{}{"api": "GetConfig(name, repeater, dwell); history; getter; overwrite the returned value; getter again", "name": string(c.Name), "repeater": c.Repeater, "dwell400ms": c.Dwell, "history": bandcfg.OpsReplay(ops), "changed": ch}})
+	}
 	var chans []string
 	for _, i := range b.GetUplinkChannelIndices() {
 		ch, err := b.GetUplinkChannel(i)
